@@ -60,6 +60,7 @@ package job
 // ---- task_status.go: UpdateJobTaskRefs ------------------------------------------------------------------------------
 // FilterTaskRefs keeps exactly the refs for which the caller-supplied predicate holds (the predicate is assumed pure)
 //@ func FilterTaskRefs
+//@   locals newRefs: []github.com/furiko-io/furiko/apis/execution/v1alpha1.TaskRef
 //@   params taskRefs, filter
 //@   tags C11
 //@   fresh result
@@ -90,6 +91,7 @@ package job
 
 // sets the DeletedStatus of the named task if it has none yet; every other field of every recorded task is kept (C09, C12)
 //@ func UpdateTaskRefDeletedStatusIfNotSet
+//@   locals newRj: *github.com/furiko-io/furiko/apis/execution/v1alpha1.Job; newTaskRefs: []github.com/furiko-io/furiko/apis/execution/v1alpha1.TaskRef
 //@   params rj, taskName, status
 //@   tags C09, C12, C13
 //@   requires rj != nil
@@ -142,6 +144,7 @@ package job
 //@        && (forall j int :: 0 <= j && j < len(taskRefs) ==> (exists i int :: 0 <= i && i < len(taskRefs) && taskRefs[i] == old(taskRefs[j])))
 
 //@ func GenerateTaskRefs
+//@   locals newRefs: []github.com/furiko-io/furiko/apis/execution/v1alpha1.TaskRef; newRefNames: map[string]struct{}; existingRefs: map[string]github.com/furiko-io/furiko/apis/execution/v1alpha1.TaskRef
 //@   params existing, tasks
 //@   tags C09, C11
 //@   modifies clock
@@ -212,6 +215,7 @@ package job
 // ---- phase.go ------------------------------------------------------------------------------------------------------------------------
 
 //@ func GetPhase
+//@   locals retrying: int64; retryBackoff: int64
 //@   params rj
 //@   tags C10, C11
 //@   requires rj != nil
